@@ -133,6 +133,8 @@ def shrink(case, still_fails):
 
 
 def check(run):
+    import genlib
+    genlib.validate_writer(run, "lammps", n=run.n(12, 120))
     run.rule = ("tracer models generated from one PRNG (1-5 potentials, nr 3..400, dyadic cutoffs with 1..8 binary places, "
                 "5 routes incl. potable files and the potable entry point); distinct = distinct (route, nr, cutoff, labels, analytic flags); "
                 "non-trivial = at least 2 rows and every printed number decoded to (function id, abscissa); "
